@@ -10,47 +10,169 @@ open TaRs TaRs.Rs
 
 variable {F : Type} [Scalar F]
 
-private theorem ite_pair {α β : Type} (c : Prop) [Decidable c] (a : α) (b b' : β) :
-    (if c then (a, b) else (a, b')) = (a, if c then b else b') := by
-  split <;> rfl
+/-! ### normal form of `nextBar`
+
+The pieces are hand-written functions with a canonical spelling of their tests; `next_eq_first`
+and `next_eq` are the ONLY facts proved by executing the generated body (with `rs_exec_prune`,
+which does not depend on how the wrap-around / warm-up / first-bar tests are spelled). -/
+
+/-- the typical price `(close + high + low) / 3` of a bar -/
+def typical (b : Bar F) : F :=
+  Scalar.div (Scalar.add (Scalar.add b.close b.high) b.low) (Scalar.lit 3 0)
+
+/-- the cursor is advanced BEFORE it is used: the slot this call reads and writes -/
+def cursor (s : MoneyFlowIndex F) : Nat := if s.index + 1 < s.period then s.index + 1 else 0
+
+/-- positive total after the pop of the value `ev` under the cursor (no pop while warming up) -/
+def popPos (s : MoneyFlowIndex F) (ev : F) : F :=
+  if s.count < s.period then s.total_positive_money_flow
+  else if Scalar.isSignPositive ev then Scalar.sub s.total_positive_money_flow ev
+  else s.total_positive_money_flow
+
+/-- negative total after the pop of the value `ev` under the cursor -/
+def popNeg (s : MoneyFlowIndex F) (ev : F) : F :=
+  if s.count < s.period then s.total_negative_money_flow
+  else if Scalar.isSignPositive ev then s.total_negative_money_flow
+  else Scalar.add s.total_negative_money_flow ev
+
+/-- positive total after the push of the move `p → t` with volume `vol` -/
+def pushPos (p t vol P : F) : F := if Scalar.lt p t then Scalar.add P (Scalar.mul t vol) else P
+
+/-- negative total after the push of the move `p → t` with volume `vol` -/
+def pushNeg (p t vol N : F) : F :=
+  if Scalar.lt p t then N else if Scalar.lt t p then Scalar.add N (Scalar.mul t vol) else N
+
+/-- the signed flow stored in the deque for the move `p → t` with volume `vol` -/
+def stored (p t vol : F) : F :=
+  if Scalar.lt p t then Scalar.mul t vol
+  else if Scalar.lt t p then Scalar.neg (Scalar.mul t vol) else Scalar.lit 0 0
+
+/-- the output formula with its zero-total-flow guard -/
+def out (P N : F) : F :=
+  if Scalar.beq (Scalar.add P N) (Scalar.lit 0 0) then Scalar.lit 50 0
+  else Scalar.mul (Scalar.div P (Scalar.add P N)) (Scalar.lit 100 0)
+
+/-! field projections commute with `if` (rewrite rules for `rs_exec_lazy` / `rs_exec_prune`) -/
+theorem ite_period (c : Prop) [Decidable c] (a b : MoneyFlowIndex F) :
+    (if c then a else b).period = if c then a.period else b.period := ite_proj _ c a b
+theorem ite_index (c : Prop) [Decidable c] (a b : MoneyFlowIndex F) :
+    (if c then a else b).index = if c then a.index else b.index := ite_proj _ c a b
+theorem ite_count (c : Prop) [Decidable c] (a b : MoneyFlowIndex F) :
+    (if c then a else b).count = if c then a.count else b.count := ite_proj _ c a b
+theorem ite_prev (c : Prop) [Decidable c] (a b : MoneyFlowIndex F) :
+    (if c then a else b).previous_typical_price
+      = if c then a.previous_typical_price else b.previous_typical_price := ite_proj _ c a b
+theorem ite_pos (c : Prop) [Decidable c] (a b : MoneyFlowIndex F) :
+    (if c then a else b).total_positive_money_flow
+      = if c then a.total_positive_money_flow else b.total_positive_money_flow := ite_proj _ c a b
+theorem ite_neg (c : Prop) [Decidable c] (a b : MoneyFlowIndex F) :
+    (if c then a else b).total_negative_money_flow
+      = if c then a.total_negative_money_flow else b.total_negative_money_flow := ite_proj _ c a b
+theorem ite_deque (c : Prop) [Decidable c] (a b : MoneyFlowIndex F) :
+    (if c then a else b).deque = if c then a.deque else b.deque := ite_proj _ c a b
+
+theorem cursor_lt (s : MoneyFlowIndex F) (h : WF s) : cursor s < s.period := by
+  have := h.pos
+  unfold cursor
+  split <;> omega
+
+/-- the FIRST bar (`count = 0`): only the cursor, the counter and the remembered typical price
+    change, the output is the literal 50 -/
+theorem next_eq_first (s : MoneyFlowIndex F) (b : Bar F) (h : WF s) (h0 : s.count = 0) :
+    s.nextBar b = some (
+      { period := s.period, index := cursor s, count := 1,
+        previous_typical_price := typical b,
+        total_positive_money_flow := s.total_positive_money_flow,
+        total_negative_money_flow := s.total_negative_money_flow,
+        deque := s.deque },
+      Scalar.lit 50 0) := by
+  obtain ⟨hp, hs, hsz, hi, hc⟩ := h
+  have hm : isizeMax < usizeMax := by decide
+  unfold nextBar typical
+  generalize Scalar.div (Scalar.add (Scalar.add b.close b.high) b.low) (Scalar.lit 3 0 : F) = t
+  rs_exec_lazy
+  unfold cursor
+  rs_exec_prune
+  all_goals (first | rfl | (simp only [h0]; done))
+
+/-- every LATER bar (`0 < count`), `ev` being the value under the advanced cursor -/
+theorem next_eq (s : MoneyFlowIndex F) (b : Bar F) (ev : F) (h : WF s) (h0 : 0 < s.count)
+    (hev : s.deque[cursor s]? = some ev) :
+    s.nextBar b = some (
+      { period := s.period, index := cursor s,
+        count := if s.count < s.period then s.count + 1 else s.count,
+        previous_typical_price := typical b,
+        total_positive_money_flow :=
+          pushPos s.previous_typical_price (typical b) b.volume (popPos s ev),
+        total_negative_money_flow :=
+          pushNeg s.previous_typical_price (typical b) b.volume (popNeg s ev),
+        deque := s.deque.setIfInBounds (cursor s)
+          (stored s.previous_typical_price (typical b) b.volume) },
+      out (pushPos s.previous_typical_price (typical b) b.volume (popPos s ev))
+          (pushNeg s.previous_typical_price (typical b) b.volume (popNeg s ev))) := by
+  have hcur := cursor_lt s h
+  obtain ⟨hp, hs, hsz, hi, hc⟩ := h
+  have hm : isizeMax < usizeMax := by decide
+  have hix : cursor s < s.deque.size := by omega
+  rw [Array.getElem?_eq_getElem hix] at hev
+  have hev := Option.some.inj hev
+  subst hev
+  unfold nextBar typical
+  generalize Scalar.div (Scalar.add (Scalar.add b.close b.high) b.low) (Scalar.lit 3 0 : F) = t
+  -- evaluate up to the first test, decide it through my own spelling, go on
+  rs_exec_lazy [ite_period, ite_index, ite_count, ite_prev, ite_pos, ite_neg, ite_deque]
+  by_cases c1 : s.index + 1 < s.period
+  all_goals rs_exec_lazy [ite_period, ite_index, ite_count, ite_prev, ite_pos, ite_neg, ite_deque]
+  all_goals by_cases c2 : s.count < s.period
+  all_goals rs_exec_lazy [ite_period, ite_index, ite_count, ite_prev, ite_pos, ite_neg, ite_deque]
+  -- compare with the normal form
+  all_goals unfold cursor popPos popNeg pushPos pushNeg stored out
+  rs_exec_prune [ite_period, ite_index, ite_count, ite_prev, ite_pos, ite_neg, ite_deque]
+  all_goals (first | rfl | contradiction)
 
 /-- `nextBar` never panics on a well-formed state, keeps it well-formed and keeps the period -/
 theorem nextBar_total (s : MoneyFlowIndex F) (b : Bar F) (h : WF s) :
     ∃ r, s.nextBar b = some r ∧ WF r.1 ∧ r.1.period_fn = s.period_fn := by
-  obtain ⟨hp, hs, hsz, hi, hc⟩ := h
-  have hm : isizeMax < usizeMax := by decide
-  unfold nextBar period_fn
-  generalize Scalar.div (Scalar.add (Scalar.add b.close b.high) b.low) (Scalar.lit 3 0 : F) = tp
-  have hu : uadd s.index 1 = some (s.index + 1) := uadd_eq _ _ (by omega)
-  have hite : ∀ (c : Prop) [Decidable c] (a b : Nat), (if c then (some a : Option Nat) else some b) = some (if c then a else b) := by
-    intro c _ a b; split <;> rfl
-  simp only [hu, Option.bind_eq_bind, Option.bind_some, Option.pure_def, hite]
-  have hj : (if decide (s.index + 1 < s.period) = true then s.index + 1 else 0) < s.period := by
-    by_cases c1 : s.index + 1 < s.period <;> simp [c1] <;> omega
-  generalize (if decide (s.index + 1 < s.period) = true then s.index + 1 else 0) = j at hj ⊢
-  have hjs : j < s.deque.size := by omega
-  have hx : Rs.index s.deque j = some s.deque[j] := index_eq _ _ hjs
-  generalize s.deque[j] = v at hx
-  have hset : ∀ w, setIndex s.deque j w = some (s.deque.setIfInBounds j w) :=
-    fun w => setIndex_eq _ _ _ hjs
-  simp only [hx, hset, Option.bind_some]
-  by_cases c2 : s.count < s.period
-  · have hu2 : uadd s.count 1 = some (s.count + 1) := uadd_eq _ _ (by omega)
-    simp only [c2, hu2, decide_true, if_true, Option.bind_some]
-    by_cases c3 : s.count + 1 = 1
-    · simp only [c3, decide_true, if_true]
-      exact ⟨_, rfl, ⟨hp, hs, hsz, hj, by dsimp only; omega⟩, rfl⟩
-    · simp only [c3, decide_false, if_false, Bool.false_eq_true]
-      by_cases c4 : Scalar.lt s.previous_typical_price tp = true <;>
-      by_cases c5 : Scalar.lt tp s.previous_typical_price = true <;>
-        simp only [c4, c5, if_true, if_false, Option.bind_some, Bool.false_eq_true, ite_pair] <;>
-        exact ⟨_, rfl, ⟨hp, hs, by simpa using hsz, hj, by dsimp only; omega⟩, rfl⟩
-  · simp only [c2, decide_false, if_false, Bool.false_eq_true]
-    by_cases c6 : Scalar.isSignPositive v = true <;>
-    by_cases c4 : Scalar.lt s.previous_typical_price tp = true <;>
-    by_cases c5 : Scalar.lt tp s.previous_typical_price = true <;>
-      simp only [c6, c4, c5, hset, if_true, if_false, Option.bind_some, Bool.false_eq_true, ite_pair] <;>
-      exact ⟨_, rfl, ⟨hp, hs, by simpa using hsz, hj, hc⟩, rfl⟩
+  have hcur := cursor_lt s h
+  have hix : cursor s < s.deque.size := by have := h.size; omega
+  obtain ⟨hp, hs, hsz, hi, hc⟩ := id h
+  by_cases h0 : s.count = 0
+  · exact ⟨_, next_eq_first s b h h0, ⟨hp, hs, hsz, hcur, by dsimp only; omega⟩, rfl⟩
+  · refine ⟨_, next_eq s b _ h (by omega) (Array.getElem?_eq_getElem hix),
+      ⟨hp, hs, by simpa using hsz, hcur, ?_⟩, rfl⟩
+    dsimp only
+    split <;> omega
+
+/-! ### the zero-total-flow guard (no well-formedness needed) -/
+
+/-- every value an `Option` computation can return satisfies `P` -/
+private def OptAll {α : Type} (P : α → Prop) (m : Option α) : Prop := ∀ r, m = some r → P r
+
+private theorem optAll_bind {α β : Type} {P : β → Prop} {m : Option α} {f : α → Option β}
+    (h : ∀ a, OptAll P (f a)) : OptAll P (m.bind f) := by
+  intro r hr
+  cases m with
+  | none => simp at hr
+  | some a => exact h a r hr
+
+private theorem optAll_ite {α : Type} {P : α → Prop} {c : Prop} [Decidable c] {x y : Option α}
+    (hx : OptAll P x) (hy : OptAll P y) : OptAll P (if c then x else y) := by
+  split <;> assumption
+
+private theorem optAll_some {α : Type} {P : α → Prop} {a : α} (h : P a) : OptAll P (some a) := by
+  intro r hr
+  cases hr
+  exact h
+
+/-- what the guard guarantees about a returned pair (state, output) -/
+private def Guarded (r : MoneyFlowIndex F × F) : Prop :=
+  r.2 = Scalar.lit 50 0 ∨
+    (Scalar.beq (Scalar.add r.1.total_positive_money_flow r.1.total_negative_money_flow)
+        (Scalar.lit 0 0) = false ∧
+      r.2 = Scalar.mul (Scalar.div r.1.total_positive_money_flow
+              (Scalar.add r.1.total_positive_money_flow r.1.total_negative_money_flow))
+            (Scalar.lit 100 0))
+
 
 /-- The zero-total-flow guard (no well-formedness needed): whenever `nextBar` returns, the
     output is either the literal `50` or the ratio formula evaluated on the NEW totals, and the
@@ -63,81 +185,19 @@ theorem nextBar_guard (s s' : MoneyFlowIndex F) (b : Bar F) (y : F)
         y = Scalar.mul (Scalar.div s'.total_positive_money_flow
               (Scalar.add s'.total_positive_money_flow s'.total_negative_money_flow))
             (Scalar.lit 100 0)) := by
-  unfold nextBar at h
-  generalize Scalar.div (Scalar.add (Scalar.add b.close b.high) b.low) (Scalar.lit 3 0 : F) = tp at h
-  have hite : ∀ (c : Prop) [Decidable c] (a b : Nat),
-      (if c then (some a : Option Nat) else some b) = some (if c then a else b) := by
-    intro c _ a b; split <;> rfl
-  cases hu : uadd s.index 1 with
-  | none => simp [hu] at h
-  | some i1 =>
-    simp only [hu, Option.bind_eq_bind, Option.bind_some, Option.pure_def, hite] at h
-    generalize (if decide (i1 < s.period) = true then i1 else 0) = j at h
-    -- every leaf: `h : some (st, if c then 50 else ratio) = some (s', y)` or `h : none = some _`
-    have leaf : ∀ (st : MoneyFlowIndex F),
-        some (st, if Scalar.beq (Scalar.add st.total_positive_money_flow st.total_negative_money_flow)
-                      (Scalar.lit 0 0) = true then (Scalar.lit 50 0 : F)
-                  else Scalar.mul (Scalar.div st.total_positive_money_flow
-                        (Scalar.add st.total_positive_money_flow st.total_negative_money_flow))
-                      (Scalar.lit 100 0)) = some (s', y) →
-        y = Scalar.lit 50 0 ∨
-          (Scalar.beq (Scalar.add s'.total_positive_money_flow s'.total_negative_money_flow)
-              (Scalar.lit 0 0) = false ∧
-            y = Scalar.mul (Scalar.div s'.total_positive_money_flow
-                  (Scalar.add s'.total_positive_money_flow s'.total_negative_money_flow))
-                (Scalar.lit 100 0)) := by
-      intro st hst
-      obtain ⟨rfl, rfl⟩ := Prod.mk.inj (Option.some.inj hst)
-      by_cases c : Scalar.beq (Scalar.add st.total_positive_money_flow st.total_negative_money_flow)
-          (Scalar.lit 0 0) = true
-      · left; simp [c]
-      · right; simp [c]
-    have hset : ∀ w, setIndex s.deque j w =
-        if j < s.deque.size then some (s.deque.setIfInBounds j w) else none := fun w => rfl
-    by_cases hjs : j < s.deque.size
-    · simp only [hset, hjs, if_true, Option.bind_some] at h
-      by_cases c2 : s.count < s.period
-      · simp only [c2, decide_true, if_true] at h
-        cases hu2 : uadd s.count 1 with
-        | none => simp [hu2] at h
-        | some c' =>
-          simp only [hu2, Option.bind_some] at h
-          by_cases c3 : c' = 1
-          · simp only [c3, decide_true, if_true] at h
-            left; exact (Prod.mk.inj (Option.some.inj h)).2.symm
-          · simp only [c3, decide_false, if_false, Bool.false_eq_true] at h
-            by_cases c4 : Scalar.lt s.previous_typical_price tp = true <;>
-            by_cases c5 : Scalar.lt tp s.previous_typical_price = true <;>
-              simp only [c4, c5, if_true, if_false, Option.bind_some, Bool.false_eq_true,
-                ite_pair] at h <;>
-              exact leaf _ h
-      · simp only [c2, decide_false, if_false, Bool.false_eq_true] at h
-        cases hx : Rs.index s.deque j with
-        | none => simp [hx] at h
-        | some v =>
-          simp only [hx, Option.bind_some] at h
-          by_cases c6 : Scalar.isSignPositive v = true <;>
-          by_cases c4 : Scalar.lt s.previous_typical_price tp = true <;>
-          by_cases c5 : Scalar.lt tp s.previous_typical_price = true <;>
-            simp only [c6, c4, c5, hset, hjs, if_true, if_false, Option.bind_some,
-              Bool.false_eq_true, ite_pair] at h <;>
-            exact leaf _ h
-    · -- cursor out of bounds: only the very first bar (no deque access) can return
-      simp only [hset, hjs, if_false, Option.bind_none] at h
-      by_cases c2 : s.count < s.period
-      · simp only [c2, decide_true, if_true] at h
-        cases hu2 : uadd s.count 1 with
-        | none => simp [hu2] at h
-        | some c' =>
-          simp only [hu2, Option.bind_some] at h
-          by_cases c3 : c' = 1
-          · simp only [c3, decide_true, if_true] at h
-            left; exact (Prod.mk.inj (Option.some.inj h)).2.symm
-          · simp only [c3, decide_false, if_false, Bool.false_eq_true] at h
-            by_cases c4 : Scalar.lt s.previous_typical_price tp = true <;>
-            by_cases c5 : Scalar.lt tp s.previous_typical_price = true <;>
-              simp [c4, c5] at h
-      · have hx : Rs.index s.deque j = none := by simp [Rs.index]; omega
-        simp [c2, hx] at h
+  -- purely structural: walk through every `bind` and every `if` of the body (whatever their
+  -- tests are); each leaf is `pure (self, 50)` or `pure (if total == 0 then (self, 50) else (self, ratio))`
+  suffices H : OptAll Guarded (s.nextBar b) from H _ h
+  unfold nextBar
+  simp only [Option.bind_eq_bind, Option.pure_def]
+  repeat' (first
+    | with_reducible apply optAll_ite
+    | with_reducible apply optAll_some
+    | (with_reducible apply optAll_bind; intro _))
+  all_goals (first
+    | exact Or.inl rfl
+    | (split
+       · exact Or.inl rfl
+       · exact Or.inr ⟨Bool.eq_false_iff.2 (by assumption), rfl⟩))
 
 end TaRs.Gen.MoneyFlowIndex
